@@ -45,7 +45,7 @@ pub mod stdx {
   }
 
   pub mod collections {
-    pub use crate::facade::HashMap;
+    pub use crate::facade::{HashMap, HashSet};
     pub use std::collections::*;
   }
 }
